@@ -37,9 +37,11 @@ impl Prop for C01 {
             9 => Just(0u8),
             1 => prop_oneof![Just(gen::P_NGD_FI_INV), Just(gen::P_7N_INV), Just(gen::P_ANGLE), Just(gen::P_NL_FI_INV), Just(gen::P_7N_ALWAYS)],
         ];
-        (gen::site(90.0, 6.0), 0u8..9, policy, gen::date())
-            .prop_map(|(site, method, policy, date)| Case { site, method, policy, date })
-            .boxed()
+        let site_date = prop_oneof![
+            5 => (gen::site(90.0, 6.0), gen::date()),
+            1 => gen::ra_wrap_site_date(90.0, 6.0, 12.0),
+        ];
+        (site_date, 0u8..9, policy).prop_map(|((site, date), method, policy)| Case { site, method, policy, date }).boxed()
     }
     fn self_test(&self) -> Result<(), String> {
         ephem::self_test()
@@ -48,6 +50,7 @@ impl Prop for C01 {
         st.eval();
         let mut spec = ParamSpec::plain(c.method);
         spec.policy = c.policy;
+        prime(&c.site, &spec, c.date, None, prime_selector(&c.site, c.date));
         let times = compute(&c.site, &spec, c.date, None);
         let Some(dh) = t(&times, Prayer::Dhuhr) else {
             return Err(Failure::new("dhuhr-invalid", "Dhuhr is always reported", gen::fmt_times(&times)));
@@ -73,6 +76,10 @@ impl Prop for C01 {
         if wrap {
             st.class("ra_wrap_window_mar17_24");
             hot = true;
+            let dt = (ephem::jd0(c.date, c.site.gmt.0) - gen::ra_wrap_jd(c.date.year())).abs() * 1440.0;
+            if dt < 12.0 || (dt - 1440.0).abs() < 12.0 {
+                st.class("local_midnight_within_12min_of_ra_wrap_(or_a_day_off)");
+            }
         }
         if gen::is_leap_window(c.date) {
             st.class("feb25_mar3");
